@@ -371,7 +371,7 @@ func ruleRunTable(c *Ctx, prop string) {
 	switch {
 	case bad != "":
 		c.violate("R37", "R37:run-table", badPos, bad)
-	case evaluated < cells*9/10:
+	case evaluated < cells:
 		c.undecided("R37", "R37:run-table", badPos, fmt.Sprintf("only %d of %d abstract models could be followed to a single outcome: the interpreter's factoring is not recognised", evaluated, cells))
 	default:
 		c.discharge("R37", "R37:run-table", badPos, fmt.Sprintf("%d abstract models (chains, fan-out, multi-output nodes, skipped optional inputs, initializer defaults and overrides, missing producers, unknown and failing operators, every combination of fixed / symbolic / unspecified dims against supplied shapes): Run's result equals the independent dataflow evaluation, each twice in a row on the same Model with the Model left unchanged", cells))
